@@ -84,6 +84,25 @@ def gen(rng, tier):
             # a last step that leaves the file for its caller to complete: createVariable in place, a copy without variables
             c['recipes'].append([rng.choice(['create', 'copynv'])] + [rng.randrange(1 << 20) for _ in range(6)])
     out.append(witnesses()[0][1])
+    # on every run: layers (rows, steps) chosen by a boolean mask
+    for d, key in (('LAY', 'nl'), ('LAY', 'nl'), ('ROW', 'nr'), ('TSTEP', 'nt')):
+        src = _src(rng)
+        src.update(kind='arrays', owntflag=False, withcf=False)
+        src[key] = 3 if key == 'nl' else rng.randint(3, 4)      # (four level edges are generated)
+        a = rng.randint(0, 1)
+        keep = list(range(a, rng.randint(a + 1, src[key] - 1 + a)))
+        out.append(dict(src=src, recipes=[], ops=[['slice', [[d, ['b', keep, src[key]]]]], ['copy']]))
+    # on every run: a gridded CAMx file of one layer with nz = 0 in its header, read as an IOAPI file
+    for _ in range(2):
+        out.append(dict(src=dict(kind='uamiv2d', seed=rng.randrange(1 << 30), withcf=False, nv=1),
+                        recipes=[], ops=[rng.choice([['copy'], ['slice', [['TSTEP', ['s', 0, 1]]]], ['slice', [['ROW', ['s', 0, 1]]]]]),
+                                         rng.choice([['copy'], ['mask'], ['stack', 'TSTEP']])]))
+    # on every run: a source whose variable list is not in fixed-width fields
+    for style in ('strip', 'blank', 'strip', 'blank'):
+        src = _src(rng)
+        src.update(kind='arrays', name16=False, owntflag=False, withcf=False, nv=rng.randint(2, 3), vlstrip=style)
+        out.append(dict(src=src, recipes=[[rng.choice(['copy', 'slice', 'apply', 'mask', 'slicet'])] + [rng.randrange(1 << 20) for _ in range(6)],
+                                          [rng.choice(['eval', 'create', 'copy', 'stack'])] + [rng.randrange(1 << 20) for _ in range(6)]]))
     # on every run: a reversed time window of a file whose step is not a whole number of hours (TSTEP is minus the HHMMSS of
     # the step, not the field-wise floor of the negative seconds), then an operation that regenerates the time flags
     for ts in (3000, 13000):
@@ -101,8 +120,19 @@ def gen(rng, tier):
 def build(src):
     import PseudoNetCDF as pnc
     from PseudoNetCDF.cmaqfiles._ioapi import ioapi_base
-    nt, nl, nr, nc = src['nt'], src['nl'], src['nr'], src['nc']
     kind = src['kind']
+    if kind == 'uamiv2d':
+        # a CAMx gridded emissions file of one layer whose grid header says nz = 0 (older files), read by the uamiv reader
+        # (an IOAPI class): one layer, two level edges
+        import random
+        from .. import camx
+        from PseudoNetCDF.camxfiles.uamiv.Memmap import uamiv
+        c = camx.gen_uamiv_emis2d(random.Random(src['seed']))
+        c['hdr_nz'] = 0
+        p = os.path.join(camx.tmpdir(), 'io2d_%d_%d.uamiv' % (os.getpid(), np.random.randint(1 << 30)))
+        open(p, 'wb').write(camx.ref_encode_uamiv(c))
+        return uamiv(p), p
+    nt, nl, nr, nc = src['nt'], src['nl'], src['nr'], src['nc']
     vg = np.array(src['lv'][:nl + 1], dtype='d') / 64.
     if kind.startswith('griddesc'):
         f = pnc.pncopen(GD % (nc, nr), format='griddesc', GDNAM='G1', VGLVLS=tuple(vg), SDATE=src['sdate'],
@@ -140,6 +170,11 @@ def build(src):
     if src.get('notflag'):
         # a file whose time axis lives in the header only (assembled by hand, before updatetflag() was ever called)
         del f.variables['TFLAG']
+    if src.get('vlstrip'):
+        # the variable list names the right variables but lost its fixed width (trailing blanks stripped by an attribute
+        # editor, names typed by hand with one blank between them): every operation writes it in 16-character fields again
+        vl = getattr(f, 'VAR-LIST')
+        setattr(f, 'VAR-LIST', vl.rstrip() if src['vlstrip'] == 'strip' else ' '.join(vl.split()))
     if kind == 'arrays_extra':
         v = f.createVariable('LAT2D', 'f', ('ROW', 'COL'))
         v[:] = 1
@@ -372,6 +407,14 @@ def resolve(recipe, f):
     return ['interp', ['%d/64' % x for x in lv], ['linear', 'conserve'][r[5] % 2]]
 
 
+def _short(op):
+    """half of the windows, subsets and functions along a dimension go through the short names of the methods (f.slice,
+    f.subset, f.apply): chosen by the operation itself, so that a case replays"""
+    import json
+    import zlib
+    return zlib.crc32(json.dumps(op, sort_keys=True, default=str).encode()) % 2 == 1
+
+
 def apply_op(f, op):
     k = op[0]
     if k == 'copy':
@@ -396,16 +439,22 @@ def apply_op(f, op):
     if k == 'slice':
         kw = {}
         for d, w in op[1]:
+            if w[0] == 'b':
+                # a boolean mask over the dimension (layers chosen by a condition): the list of its True positions
+                m = np.zeros(w[2], dtype=bool)
+                m[list(w[1])] = True
+                kw[d] = m
+                continue
             kw[d] = w[1] if w[0] in 'il' else (slice(w[1], w[2]) if w[0] == 's' else slice(w[1], w[2], w[3]))
             if w[0] == 'i' and len(w) > 2:
                 kw[d] = np.int64(w[1])          # an integer that is not a python int (argmin arithmetic, array element)
-        return f.sliceDimensions(**kw)
+        return f.slice(**kw) if _short(op) else f.sliceDimensions(**kw)
     if k == 'subset':
-        return f.subsetVariables(list(op[1]))
+        return f.subset(list(op[1])) if _short(op) else f.subsetVariables(list(op[1]))
     if k == 'rename':
         return f.renameVariable(op[1], op[2])
     if k == 'apply':
-        return f.applyAlongDimensions(**{op[1]: FNS.get(op[2], op[2])})
+        return (f.apply if _short(op) else f.applyAlongDimensions)(**{op[1]: FNS.get(op[2], op[2])})
     if k == 'eval':
         return f.eval('%s = %s * 2' % (op[1], op[2]), inplace=op[3])
     if k == 'mask':
@@ -514,6 +563,8 @@ def diff_state(mtext, st):
 
 
 def agree(case, out, res):
+    if case['src']['kind'] == 'uamiv2d':
+        return None     # the reader's own variables (ETFLAG) are outside the model: judged by the coherence predicate
     mstates = out.split(' || ')
     if not res['ops'] or (case['src']['kind'].startswith('griddesc') and case['src']['withcf']):
         return None     # files with a CF `time` variable decode times from it, not from TFLAG: oracle only
@@ -536,8 +587,9 @@ def agree(case, out, res):
 
 
 def oracle(case, res):
-    if res['init_bad']:
-        return 'the %s source file is not coherent: %s' % (case['src']['kind'], '; '.join(res['init_bad']))
+    init_bad = [b for b in res['init_bad'] if not (case['src'].get('vlstrip') and b.startswith('VAR-LIST has'))]
+    if init_bad:
+        return 'the %s source file is not coherent: %s' % (case['src']['kind'], '; '.join(init_bad))
     for i, st in enumerate(res['states']):
         if 'err' in st:
             return None
